@@ -116,9 +116,34 @@ def broken_variant(text, kind):
     raise AssertionError(kind)
 
 
+TWINS = ("cmt_a", "cmt_b", "str_ws", "trail_ws")
+TWIN_CMT_OK = (0, 1, 2, 3, 4, 6, 7, 8, 9)  # first equation after "equation\n" fits on one line
+TWIN_STR_OK = (8, 9)  # texts with a string literal that contains a blank or can take one
+
+
+def twin_variant(text, kind):
+    """Valid texts that differ from each other (or from the original) only in
+    layout that MATTERS: a line break ending a // comment, blanks inside a string
+    literal.  cmt_a and cmt_b of one text collide under any key that normalises
+    whitespace, yet cmt_b has one equation fewer."""
+    if kind == "cmt_a":
+        return text.replace("equation\n", "equation // first equation follows\n", 1)
+    if kind == "cmt_b":
+        return text.replace("equation\n", "equation // first equation follows ", 1)
+    if kind == "str_ws":
+        k = text.index('"')
+        j = text.index('"', k + 1)
+        return text[:k] + text[k:j].replace(" ", "   ") + " " + text[j:]
+    if kind == "trail_ws":
+        return text + "\n   \n"
+    raise AssertionError(kind)
+
+
 def text_of(entry):
     if entry[0] == "v":
         return VALID[entry[1]]
+    if entry[0] == "t":
+        return twin_variant(VALID[entry[1]], entry[2])
     return broken_variant(VALID[entry[1]], entry[2])
 
 
@@ -548,8 +573,9 @@ def make_machine(ctx):
         @initialize(
             valid=st.lists(st.integers(0, len(VALID) - 1), min_size=3, max_size=4, unique=True),
             broken=st.lists(st.tuples(st.integers(0, 3), st.sampled_from(BREAKS)), min_size=1, max_size=2),
+            twins=st.lists(st.tuples(st.integers(0, 3), st.sampled_from(["cmt", "cmt", "str_ws", "trail_ws"])), min_size=0, max_size=2),
         )
-        def start(self, valid, broken):
+        def start(self, valid, broken, twins):
             if ctx.over_budget():
                 self.dead = True
                 return
@@ -558,6 +584,19 @@ def make_machine(ctx):
                 e = ["b", valid[k % len(valid)], kind]
                 if e not in pool:
                     pool.append(e)
+            for k, kind in twins:
+                v = valid[k % len(valid)]
+                if kind == "cmt" and v in TWIN_CMT_OK:
+                    new = [["t", v, "cmt_a"], ["t", v, "cmt_b"]]
+                elif kind == "str_ws" and v in TWIN_STR_OK:
+                    new = [["t", v, "str_ws"]]
+                elif kind == "trail_ws":
+                    new = [["t", v, "trail_ws"]]
+                else:
+                    new = []
+                for e in new:
+                    if e not in pool:
+                        pool.append(e)
             self.pool = pool
             try:
                 self.sim = Sim(ctx, pool)
